@@ -4,7 +4,6 @@ Property theorems only (helper lemmas: Lemmas/Response.lean; models: Model/Heade
 Model/Response.lean; generated tables: Gen/Response.lean).
 -/
 import WzVerif.Lemmas.Response
-import WzVerif.Props.C15
 namespace Wz.Props.C05
 open Wz Hdr Resp Wz.C05L
 
@@ -436,7 +435,7 @@ structure UrlLaws (U : UrlOps) : Prop where
   join_ascii : ∀ a b, Ascii a → Ascii b → Ascii (U.join a b)
 
 theorem iriToUriStr_ascii (U : UrlOps) (hU : UrlLaws U) (url : Str) : Ascii (iriToUriStr U url) := by
-  obtain ⟨h1, h2, h3, h4, h5⟩ := Wz.Props.C15.iriToUri_ascii (U.split url) (hU.split_scheme url) (hU.split_host url)
+  obtain ⟨h1, h2, h3, h4, h5⟩ := C05L.iriToUri_ascii (U.split url) (hU.split_scheme url) (hU.split_host url)
   exact hU.unsplit_ascii _ h1 h2 h3 h4 h5
 
 theorem locationOut_ascii (U : UrlOps) (hU : UrlLaws U) (ac : Bool) (cur loc : Str) :
